@@ -9,6 +9,7 @@
 import AcnModel.Sessions
 import AcnProofs.Lemmas.Sessions
 import AcnProofs.Lemmas.SessionsFit
+import AcnProofs.Lemmas.SessionsCharge
 import Mathlib.Tactic
 
 namespace Acn.C15
@@ -223,6 +224,228 @@ theorem same_period_session_kept :
     rw [pyTrunc_nonneg (by norm_num [exDoc2])]; norm_num [exDoc2, Int.floor_eq_iff]
   rw [hd, capDeparture_none, ha, h1, h2]
 
+/-! ### stochastic samples (`_convert_ev_matrix`) -/
+
+/-- A kept sample row (arrival `a` h, duration `d` h, energy) becomes a session with
+    `arrival = ⌊a·60/period⌋`, `departure = ⌊(a + d')·60/period⌋` where `d' = min(d, max_len)` —
+    the cap is applied to the duration in HOURS (DESIGN §8, pinned by the repo's own test) —
+    ids `session_i` / `station_i` of the row index, requested energy = the sample's energy, or
+    with `force_feasible` its minimum with `max_power·d'`; rows with a negative arrival or a
+    non-positive duration / energy are exactly the ones skipped. -/
+theorem sample_spec (idx : Nat) (s : Sample K) (period V mp : K) (maxLen : Option K)
+    (bp : BattParams K) (ff : Bool) (hp : 0 < period) (hL : ∀ L, maxLen = some L → 0 ≤ L) :
+    (∀ e, convertSample idx s period V mp maxLen bp ff = .ok (some e) →
+      e.arrival = ⌊s.arrival * (60 / period)⌋ ∧
+      e.departure = ⌊(s.arrival + sampleDur s.duration maxLen) * (60 / period)⌋ ∧
+      e.arrival ≤ e.departure ∧ 0 ≤ e.arrival ∧
+      (∀ L, maxLen = some L → sampleDur s.duration maxLen ≤ L ∧
+          e.departure - e.arrival ≤ ⌊L * (60 / period)⌋ + 1) ∧
+      e.session = s!"session_{idx}" ∧ e.station = s!"station_{idx}" ∧
+      e.requested = (if ff then min s.energy (mp * sampleDur s.duration maxLen) else s.energy) ∧
+      (0 ≤ mp → 0 ≤ e.requested)) ∧
+    (convertSample idx s period V mp maxLen bp ff = .ok none →
+      s.arrival < 0 ∨ s.duration ≤ 0 ∨ s.energy ≤ 0) := by
+  refine ⟨?_, convertSample_none hp⟩
+  intro e h
+  obtain ⟨ha0, hd0, he0, ha, hd, -, hs1, hs2, hr, -⟩ := convertSample_some hp h
+  have hpph : (0 : K) < 60 / period := by positivity
+  have hdur := sampleDur_nonneg s.duration maxLen hd0.le hL
+  have hA : (0 : K) ≤ s.arrival * (60 / period) := mul_nonneg ha0 hpph.le
+  have hD : (0 : K) ≤ (s.arrival + sampleDur s.duration maxLen) * (60 / period) :=
+    mul_nonneg (by linarith) hpph.le
+  rw [pyTrunc_nonneg hA] at ha
+  rw [pyTrunc_nonneg hD] at hd
+  have hmono : ⌊s.arrival * (60 / period)⌋ ≤ ⌊(s.arrival + sampleDur s.duration maxLen) * (60 / period)⌋ :=
+    Int.floor_le_floor (mul_le_mul_of_nonneg_right (by linarith) hpph.le)
+  refine ⟨ha, hd, by rw [ha, hd]; exact hmono, by rw [ha]; exact Int.floor_nonneg.mpr hA, ?_, hs1, hs2, ?_, ?_⟩
+  · intro L hLm
+    subst hLm
+    refine ⟨sampleDur_le _ _, ?_⟩
+    rw [ha, hd, add_mul]
+    have h1 : sampleDur s.duration (some L) * (60 / period) ≤ L * (60 / period) :=
+      mul_le_mul_of_nonneg_right (sampleDur_le _ _) hpph.le
+    have h2 := Int.floor_le_floor h1
+    have h3 := Int.le_floor_add_floor (s.arrival * (60 / period))
+      (sampleDur s.duration (some L) * (60 / period))
+    omega
+  · rw [hr]; split <;> simp
+  · intro hm
+    rw [hr]; split
+    · rw [pyMin_eq_min]; exact le_min he0.le (mul_nonneg hm hdur)
+    · exact he0.le
+
+example : (⌊(9.5 : ℚ) * (60 / 5)⌋ = 114) ∧ ⌊((9.5 : ℚ) + 0.01) * (60 / 5)⌋ = 114 := by
+  constructor <;> (rw [Int.floor_eq_iff]; norm_num)
+
 end docs
+
+/-! ### the two-stage capacity fit (`batt_cap_fn`), over ℝ -/
+section fit
+open Acn.SessionsFit Acn.BattFlow
+
+variable {caps : List ℝ} {mr ts tol E T V P cap init : ℝ} {fuel : Nat}
+
+/-- The regenerated constants of the fit lie in the ranges the theorems assume. -/
+theorem gen_fit_consts :
+    (∀ c ∈ Gen.fitCaps, 0 < c) ∧ 0 < Gen.fitMaxRate ∧ 0 ≤ Gen.fitTransitionSoc ∧
+      Gen.fitTransitionSoc < 1 ∧ 0 < Gen.fitTol ∧ Gen.fitCaps ≠ [] := by decide +kernel
+
+/-- `batt_cap_fn` never hands the Battery constructor an initial charge above the capacity (nor a
+    negative one): for every request and stay in its domain the answer satisfies
+    `0 ≤ init ≤ cap`, `cap` is a ladder capacity that can hold the request, and the two-stage
+    battery is constructible. -/
+theorem init_le_capacity (hd : FitDomain caps mr ts tol E T V P)
+    (h : battCapFn caps mr ts tol fuel E T V P = .ok (cap, init)) (mp noise : ℝ) (cm : Calc) :
+    cap ∈ caps ∧ E ≤ cap ∧ 0 ≤ init ∧ init ≤ cap ∧
+      ∃ b, mkTwoStage cap init mp noise ts cm = .ok b ∧ b.capacity = cap ∧ b.charge = init := by
+  obtain ⟨hmem, hc, hle, h0, s, hi, hs1, -⟩ := fit_main hd h
+  have hic : init ≤ cap := by rw [hi]; nlinarith
+  refine ⟨hmem, hle, h0, hic, ?_⟩
+  unfold mkTwoStage
+  rw [if_neg (not_lt.mpr hic), if_neg (not_lt.mpr hd.ts_nonneg), if_neg (not_le.mpr hd.ts_lt)]
+  exact ⟨_, rfl, rfl, rfl⟩
+
+/-- Free capacity of a fitted battery: it covers the request exactly in the closed-form branch and
+    up to the bisection tolerance (`tol` in SoC units = `tol·cap` kWh) otherwise. -/
+theorem fit_free_capacity (hd : FitDomain caps mr ts tol E T V P)
+    (h : battCapFn caps mr ts tol fuel E T V P = .ok (cap, init)) :
+    E - tol * cap < cap - init ∧
+      (ts ≤ (closedInitSoc mr ts E T V P cap).2.2 → E ≤ cap - init) := by
+  obtain ⟨-, hc, -, -, s, hi, -, -, hfree, hcl⟩ := fit_main hd h
+  have e : E = E / cap * cap := by field_simp
+  constructor
+  · rw [hi]; nlinarith
+  · intro hclosed
+    have := (hcl hclosed).2
+    rw [hi]; nlinarith
+
+/-- `fit_exact`: build `Linear2StageBattery(cap, init, 32·V/1000)` from the fit's answer and charge
+    it at the fit's full rate for the `n = stay` periods: the energy taken equals the request —
+    exactly in the closed-form branch, within the bisection tolerance `tol·cap` otherwise. -/
+theorem fit_exact (n : Nat) (hd : FitDomain caps mr ts tol E (n : ℝ) V P)
+    (h : battCapFn caps mr ts tol fuel E (n : ℝ) V P = .ok (cap, init)) :
+    ∃ b b', mkTwoStage cap init (mr * V / 1000) 0 ts .continuous = .ok b ∧
+      chargeN b mr V P n = .ok b' ∧
+      |b'.charge - init - E| < tol * cap ∧
+      (ts ≤ (closedInitSoc mr ts E (n : ℝ) V P cap).2.2 → b'.charge - init = E) := by
+  obtain ⟨-, hc, -, -, s, hi, hs1, hflow, -, hcl⟩ := fit_main hd h
+  obtain ⟨-, -, -, -, b, hb, hbc, hbch⟩ := init_le_capacity hd h (mr * V / 1000) 0 .continuous
+  have hfb : FitBatt cap (mr * V / 1000) ts b := by
+    unfold mkTwoStage at hb
+    split at hb
+    · exact absurd hb (by simp)
+    · split at hb
+      · exact absurd hb (by simp)
+      · split at hb
+        · exact absurd hb (by simp)
+        · injection hb with hb; subst hb; exact ⟨rfl, rfl, rfl, rfl, rfl, rfl⟩
+  obtain ⟨b', hch, -, -, hsoc⟩ := chargeN_flow hd.mr_pos hd.V_pos hd.P_pos hc hd.ts_lt n b hfb
+  refine ⟨b, b', hb, hch, ?_, ?_⟩
+  · have hs : b.charge / cap = s := by rw [hbch, hi]; field_simp
+    rw [hs] at hsoc
+    have e1 : b'.charge = b'.charge / cap * cap := by field_simp
+    have e2 : E = E / cap * cap := by field_simp
+    have : b'.charge - init - E =
+        (flowSoc (fitM mr V P cap) (fitM mr V P cap / (1 - ts)) s n - s - E / cap) * cap := by
+      rw [← hsoc, hi]; field_simp
+    rw [this, abs_mul, abs_of_pos hc]
+    exact mul_lt_mul_of_pos_right hflow hc
+  · intro hclosed
+    have hs : b.charge / cap = s := by rw [hbch, hi]; field_simp
+    rw [hs] at hsoc
+    have := (hcl hclosed).1
+    have e2 : E = E / cap * cap := by field_simp
+    have e3 : b'.charge = b'.charge / cap * cap := by field_simp
+    rw [e3, hsoc, hi, e2]
+    nlinarith
+
+/-- Bisection terminates: `delta_soc_from_init_soc` bracketed as `_get_init_cap` brackets it needs
+    at most `n+1` recursion levels once `ub − lb < tol·2^(n+1)` (for the code's bracket
+    `[0.8 − m·T, 1]` and `tol = 1e-9`: 31 + log₂(1 + m·T) levels, far below Python's limit). -/
+theorem bisection_terminates (f : ℝ → ℝ) (target tol A B : ℝ)
+    (hf : ∀ x y, A ≤ x → x ≤ y → y ≤ B → f y ≤ f x ∧ f x - f y ≤ y - x)
+    (n : Nat) (lb ub : ℝ) (hA : A ≤ lb) (hlu : lb ≤ ub) (hB : ub ≤ B)
+    (hw : ub - lb < tol * 2 ^ (n + 1)) (h1 : f ub ≤ target) (h2 : target ≤ f lb) :
+    ∃ s, binsearch f target tol (n + 1) lb ub = .ok s ∧ lb ≤ s ∧ s ≤ ub ∧ |f s - target| < tol := by
+  obtain ⟨s, hs⟩ := binsearch_terminates f target tol A B hf n lb ub hA hlu hB hw h1 h2
+  exact ⟨s, hs, binsearch_spec f target tol _ _ _ _ hlu hs⟩
+
+/-- `free_capacity_covers`: a document converted with `capacity_fn = batt_cap_fn` (any positive
+    ladder, constants in range) and a positive stay gets a battery on the ladder with
+    `0 ≤ init ≤ capacity` whose free capacity covers the requested energy — exactly in the fit's
+    closed-form branch, up to `tol·capacity` (1e-9 of the capacity) in its bisection branch.  For
+    batteries without `capacity_fn` see `free_capacity_covers_default` (free capacity = request). -/
+theorem free_capacity_covers (d : Doc ℝ) (offset : Int) (period V mp : ℝ) (maxLen : Option Int)
+    (bp : BattParams ℝ) (ff : Bool) (e : Ev ℝ) (hp : 0 < period) (hV : 0 < V)
+    (hcaps : ∀ c ∈ caps, 0 < c) (hmr : 0 < mr) (hts0 : 0 ≤ ts) (hts1 : ts < 1) (htol : 0 < tol)
+    (hb : bp.capFn = some (battCapFn caps mr ts tol fuel))
+    (hreq : 0 ≤ e.requested) (hstay : e.arrival < e.departure)
+    (h : convertDoc d offset period V mp maxLen bp ff = .ok e) :
+    e.batt.capacity ∈ caps ∧ 0 ≤ e.batt.init ∧ e.batt.init ≤ e.batt.capacity ∧
+      e.requested - tol * e.batt.capacity < e.batt.capacity - e.batt.init ∧
+      (ts ≤ (closedInitSoc mr ts e.requested ((e.departure - e.arrival : Int) : ℝ) V period
+                e.batt.capacity).2.2 → e.requested ≤ e.batt.capacity - e.batt.init) := by
+  obtain ⟨-, -, -, -, -, -, -, -, hbat⟩ := convertDoc_ok hp h
+  obtain ⟨c, i, hf, hc, hi, -, -, -⟩ := mkBattery_capFn hb hbat
+  have hT : (0 : ℝ) < ((e.departure - e.arrival : Int) : ℝ) := by
+    exact_mod_cast (by omega : (0 : Int) < e.departure - e.arrival)
+  have hd : FitDomain caps mr ts tol e.requested ((e.departure - e.arrival : Int) : ℝ) V period :=
+    ⟨hcaps, hmr, hts0, hts1, htol, hreq, hT, hV, hp⟩
+  obtain ⟨h1, -, h3, h4, -⟩ := init_le_capacity hd hf 0 0 .continuous
+  obtain ⟨h5, h6⟩ := fit_free_capacity hd hf
+  rw [hc, hi]
+  exact ⟨h1, h3, h4, h5, h6⟩
+
+/-! non-vacuity: the corpus case of finding F9, `batt_cap_fn(1.0, 100, 208, 5)` (closed-form branch),
+    over ℝ with the ladder and constants of the source -/
+
+theorem fitDomain_F9 : FitDomain [8, 24, 40, 60, 85, 100] 32 (4/5) (1/1000000000) 1 ((100 : ℕ) : ℝ) 208 5 :=
+  ⟨by intro c hc; simp at hc; rcases hc with h | h | h | h | h | h <;> rw [h] <;> norm_num,
+   by norm_num, by norm_num, by norm_num, by norm_num, by norm_num, by norm_num, by norm_num, by norm_num⟩
+
+/-- the repaired code answers the 1 kWh / 100-period request with the 8 kWh battery from the
+    closed-form branch (`init = init_soc·8` kWh) … -/
+theorem fit_F9_closed :
+    ∃ init, battCapFn [8, 24, 40, 60, 85, 100] 32 (4/5) (1/1000000000) 7 1 ((100 : ℕ) : ℝ) 208 5
+        = .ok (8, init) ∧
+      (4/5 : ℝ) ≤ (closedInitSoc 32 (4/5) 1 ((100 : ℕ) : ℝ) 208 5 8).2.2 := by
+  have hcl : (4/5 : ℝ) ≤ (closedInitSoc 32 (4/5) 1 ((100 : ℕ) : ℝ) 208 5 8).2.2 := by
+    rw [closed_eq]
+    simp only [fitM]
+    have hx : Real.exp (32 * 208 / 1000 / 8 / (60 / 5) * ((100 : ℕ) : ℝ) / (4 / 5 - 1)) ≤ 1 / 4 := by
+      have e : (32 * 208 / 1000 / 8 / (60 / 5) * ((100 : ℕ) : ℝ) / (4 / 5 - 1) : ℝ) = -(104/3) := by
+        norm_num
+      rw [e, Real.exp_neg]
+      have := Real.add_one_le_exp (104/3 : ℝ)
+      rw [inv_le_comm₀ (Real.exp_pos _) (by norm_num)]
+      linarith
+    have hpos := Real.exp_pos (32 * 208 / 1000 / 8 / (60 / 5) * ((100 : ℕ) : ℝ) / (4 / 5 - 1))
+    have hneg : Real.exp (32 * 208 / 1000 / 8 / (60 / 5) * ((100 : ℕ) : ℝ) / (4 / 5 - 1)) - 1 < 0 := by
+      linarith
+    have : (-(1/5) : ℝ) ≤ 1 / 8 / (Real.exp (32 * 208 / 1000 / 8 / (60 / 5) * ((100 : ℕ) : ℝ) / (4 / 5 - 1)) - 1) := by
+      rw [le_div_iff_of_neg hneg]; nlinarith
+    linarith
+  refine ⟨(closedInitSoc 32 (4/5) 1 ((100 : ℕ) : ℝ) 208 5 8).2.2 * 8, ?_, hcl⟩
+  rw [battCapFn, if_neg (by norm_num)]
+  have hg : getInitCap 32 (4/5) (1/1000000000) 7 1 ((100 : ℕ) : ℝ) 208 5 8 =
+      .ok ((closedInitSoc 32 (4/5) 1 ((100 : ℕ) : ℝ) 208 5 8).2.2 * 8) := by
+    unfold getInitCap
+    simp only
+    rw [if_pos hcl]
+  rw [hg]
+  simp only
+  rw [if_pos (by linarith)]
+
+/-- … whose free capacity covers the request and which takes exactly 1 kWh in the 100 periods
+    (before the repair it took 7.1 kWh: `init` was an SoC, not kWh). -/
+example : ∃ init b b', battCapFn [8, 24, 40, 60, 85, 100] 32 (4/5) (1/1000000000) 7 1 ((100 : ℕ) : ℝ) 208 5
+      = .ok (8, init) ∧ 1 ≤ 8 - init ∧
+    mkTwoStage 8 init (32 * 208 / 1000) 0 (4/5) .continuous = .ok b ∧
+    chargeN b 32 208 5 100 = .ok b' ∧ b'.charge - init = 1 := by
+  obtain ⟨init, h, hcl⟩ := fit_F9_closed
+  obtain ⟨b, b', hb, hch, -, hex⟩ := fit_exact 100 fitDomain_F9 h
+  exact ⟨init, b, b', h, (fit_free_capacity fitDomain_F9 h).2 hcl, hb, hch, hex hcl⟩
+
+end fit
 
 end Acn.C15
